@@ -105,6 +105,12 @@ pub trait Prop: Sync {
     /// One-time preparation (build fixtures, start servers, …).
     fn setup(&self, _tier: Tier) {}
     fn teardown(&self) {}
+    /// Run the cases in child processes (chunks, bisected on failure) so that a hang, an abort or an
+    /// out-of-memory kill of the code under test becomes the outcome `crash:<how>` of ONE case instead of
+    /// killing the whole run. `(seconds per chunk, address-space limit in MiB)`.
+    fn isolate(&self) -> Option<(u64, u64)> {
+        None
+    }
 }
 
 pub fn render_blocks(cases: &[(String, Vec<String>)]) -> String {
